@@ -24,6 +24,10 @@ CHECKS = {
    tech="TLA+ spec Freelist.tla (trunk-shaped model vs abstract free set) model-checked by TLC; single-operation and bulk (FreelistBulk.tla) histories from TLC replayed on the real Freelist",
    text="TLC checks Conservation/CountIsAllocatable/NoDoubleAlloc for every release/allocate history up to 9 operations over 6 pages with 2-entry trunks (several trunks crossed); every explored single-operation history (real trunk size) and every bulk history with runs of 1,2,4089..4092 operations (up to 3 real trunk boundaries, both directions) is executed on the real Freelist and judged by the abstract set semantics plus the model's predicted counts",
    note="page identity is not compared (any free page may be returned); sparse in-memory Storage in the harness; double release is outside the client contract"),
+ "C37": dict(cat="model_checking", ref="DESIGN.md 3.3, 6 (C37)",
+   tech="TLA+ spec GroupCommit.tla (queue + caller protocol) model-checked by TLC incl. liveness; TLC schedules driven through the real GroupCommitQueue by a puppeteer, C37 evaluated on observed acknowledgements vs log",
+   text="TLC explores every interleaving of 2 committers x 2 commits (3 committers in thorough) with injected write failures, one action per critical section of the queue mutex, and checks AckAfterWrite/AtMostOnce/FailureReachesAll/NoStuckFlag and NoLostWakeup under weak fairness; each explored transition is a schedule forced on the real queue with the caller protocol enacted step by step; after any divergence the execution is continued and judged on what is observed",
+   note="the caller protocol is re-enacted by the harness on the bare queue (not through Database handles); the WAL write is a harness-side log; the 30 s timeout is outside the model"),
 }
 
 NOT_APPLICABLE = {}
